@@ -233,7 +233,7 @@ def check_one(item):
     diff = z3.Or(c15.states_differ(ctx, _strip(ff), _strip(fs)), ending_term(rf) != ending_term(rs))
     nofault = z3.Not(z3.Or(*[c for _, c in ctx.faults])) if ctx.faults else z3.BoolVal(True)
     q = z3.And(nofault, z3.Or(z3.And(tf, z3.Not(ts)), z3.And(tf, ts, diff)))
-    v, m, dt = solve.check([q] + ctx.c04_assumptions, 90000)
+    v, m, dt = solve.check([q] + ctx.c04_assumptions, 60000)
     res["solver_s"] = dt; res["kF"] = kF; res["kS"] = kS
     res["blocks"] = [len(F["cfg"]["blocks"]), len(S["blocks"])]
     if v == solve.UNSAT:
